@@ -39,7 +39,7 @@ theorem Good.refl {P N} [Good P N] (a : Stream) : P a a := Good.core (CoreEq.rfl
 structure Evolves (P : Stream → Stream → Prop) (N : Stream → Prop) (a b : Store) : Prop where
   nk : a.nextKey ≤ b.nextKey
   back : ∀ k st', b.get? k = some st' →
-      (∃ st, a.get? k = some st ∧ P st st') ∨ (a.nextKey ≤ k ∧ N st')
+      (∃ st, a.get? k = some st ∧ P st st') ∨ (a.nextKey ≤ k ∧ k < b.nextKey ∧ N st')
   /-- an entry of `a` is still there, or it evolved into an entry with an empty queue (and was dropped) -/
   fwd : ∀ k st, a.get? k = some st → k < a.nextKey →
       (∃ st', b.get? k = some st' ∧ P st st') ∨ (∃ st'', P st st'' ∧ Removable st'')
@@ -78,11 +78,11 @@ theorem Evolves.refl (a : Store) : Evolves P N a a :=
 
 theorem Evolves.trans {a b c : Store} (h1 : Evolves P N a b) (h2 : Evolves P N b c) : Evolves P N a c := by
   refine ⟨Nat.le_trans h1.nk h2.nk, fun k st'' h => ?_, fun k st h hlt => ?_⟩
-  · rcases h2.back k st'' h with ⟨st', hb, p2⟩ | ⟨hk, n⟩
-    · rcases h1.back k st' hb with ⟨st, ha, p1⟩ | ⟨hk, n⟩
+  · rcases h2.back k st'' h with ⟨st', hb, p2⟩ | ⟨hk, hlt, n⟩
+    · rcases h1.back k st' hb with ⟨st, ha, p1⟩ | ⟨hk, hlt, n⟩
       · exact .inl ⟨st, ha, Good.trans p1 p2⟩
-      · exact .inr ⟨hk, Good.new n p2⟩
-    · exact .inr ⟨Nat.le_trans h1.nk hk, n⟩
+      · exact .inr ⟨hk, Nat.lt_of_lt_of_le hlt h2.nk, Good.new n p2⟩
+    · exact .inr ⟨Nat.le_trans h1.nk hk, hlt, n⟩
   · rcases h1.fwd k st h hlt with ⟨st', hb, p1⟩ | ⟨st'', p, d⟩
     · rcases h2.fwd k st' hb (Nat.lt_of_lt_of_le hlt h1.nk) with ⟨st2, hc, p2⟩ | ⟨st'', p, d⟩
       · exact .inl ⟨st2, hc, Good.trans p1 p2⟩
@@ -158,7 +158,7 @@ theorem Evolves.insert {a b : Store} (h : Evolves P N a b) (x : Stream)
         simp only [Option.some.injEq] at hk
         subst hk
         have : b.nextKey = k := by simpa using hb
-        exact .inr ⟨by omega, hx⟩
+        exact .inr ⟨by omega, by simp only [Store.insert_nextKey]; omega, hx⟩
       · cases hk
   · refine .inl ⟨st, ?_, Good.refl st⟩
     unfold Store.get? at hk
@@ -189,9 +189,25 @@ def AllStreams (I : Stream → Prop) (a : Store) : Prop := ∀ k st, a.get? k = 
 theorem Evolves.allStreams {P N} {I : Stream → Prop} {a b : Store} (h : Evolves P N a b)
     (hP : ∀ x y, I x → P x y → I y) (hN : ∀ x, N x → I x) (hs : AllStreams I a) : AllStreams I b := by
   intro k st' hk
-  rcases h.back k st' hk with ⟨st, ha, p⟩ | ⟨_, n⟩
+  rcases h.back k st' hk with ⟨st, ha, p⟩ | ⟨_, _, n⟩
   · exact hP _ _ (hs k st ha) p
   · exact hN _ n
+
+/-- every key in use is below `nextKey` (so that a key is never handed out twice) -/
+def KeysBelow (a : Store) : Prop := ∀ k st, a.get? k = some st → k < a.nextKey
+
+theorem Evolves.keysBelow {P N} {a b : Store} (h : Evolves P N a b) (ha : KeysBelow a) : KeysBelow b := by
+  intro k st' hk
+  rcases h.back k st' hk with ⟨st, hg, _⟩ | ⟨_, hlt, _⟩
+  · exact Nat.lt_of_lt_of_le (ha k st hg) h.nk
+  · exact hlt
+
+/-- the entry of a key that `a` already used evolved from `a`'s entry -/
+theorem Evolves.same_key {P N} {a b : Store} (h : Evolves P N a b) {k : Nat} {st' : Stream}
+    (hk : b.get? k = some st') (hlt : k < a.nextKey) : ∃ st, a.get? k = some st ∧ P st st' := by
+  rcases h.back k st' hk with r | ⟨hge, _, _⟩
+  · exact r
+  · omega
 
 -- ===================================================================== tactics
 open Lean Elab Tactic Meta
